@@ -124,7 +124,9 @@ fn float_bounds64(s: &mut Src) -> (Option<F64>, Option<F64>) {
 }
 fn float_bounds32(s: &mut Src) -> (Option<F32>, Option<F32>) {
     let (a, b) = float_bounds64(s);
-    (a.map(|v| F32(v.0 as f32)), b.map(|v| F32(v.0 as f32)))
+    // finite f64 bounds must stay finite (and ordered) as f32
+    let c = |v: F64| F32(if v.0.is_finite() { (v.0 as f32).clamp(f32::MIN, f32::MAX) } else { v.0 as f32 });
+    (a.map(c), b.map(c))
 }
 
 pub fn scale_offset(s: &mut Src) -> (f64, f64) {
